@@ -8,6 +8,10 @@ callable to ``EXTRA_PARTS`` - it can reuse ``check_svg``, ``format_channels`` an
                     +-1e30 / 1e-30 / zero or negative on log scales / gaps of absent values / all absent) plotted the way
                     PlotLogs does for LAS: LASRead -> Plot.PlotReadXML(id, scale) -> hasDataToPlotLAS -> plotLogPassLAS,
                     the ``-X`` route XMLMatches.fileCurveMap, and the whole tool PlotLogs.PlotLogPasses
+  adapter-plot      the same generated curves handed to Plot.PlotReadXML(id, scale).plotLogPassLAS through a frame holder
+                    built from the model alone that offers the accessors Plot documents and calls (hasOutpMnem,
+                    genOutpPoints, nullValue, xAxisUnits, curveUnitsAsStr ...): the plotting code itself (tracks, scales,
+                    curves, wrap interpolation, absent values) on hostile data, independent of the dead LAS reader glue
   bundled-lis-plot  the three bundled LIS files plotted by PlotLogs.PlotLogPasses with the FILM/PRES tables of the file
                     and with every built-in LgFormat, every SVG through ``check_svg``
   svg-checker       self check of ``check_svg`` on hand made SVG texts (a failure is a harness error)
@@ -21,6 +25,7 @@ Oracles
   log-rejects-nonpositive    LineTransLog10.wrapPos(v <= 0) raises ExceptionLineTransBaseMath (the documented error Plot relies on)
   svg-parses / svg-root / svg-viewbox / polyline-in-viewbox / polyline-between-margins / track-borders-inside-margins /
   no-point-for-absent        see ``check_svg``
+  data-produces-plot         (adapter-plot) a format that plots one of the curves yields an SVG with > 0 curves
   las-input-produces-plot / lis-input-produces-plot   a file that has a curve a format plots yields an SVG with > 0 curves
   no-unexpected-exception
 """
@@ -57,9 +62,10 @@ RULE = ('scale-maths: physical edges lP in [-100, 100], width in [1e-3, 100] (in
         'RIGHT); asserted where span, scale factor, offset, normalised position and unwrapped position are finite doubles.  '
         'las-plot: 1..5 curves out of 26 mnemonics the built-in formats plot, 3..40 frames, up or down, depth in M / FT / F, '
         'every curve with one of 8 shapes, plotted with 1..3 of the built-in formats at scale 0 (format default) / 20 / 40 / '
-        '100 / 200 / 500 / 1000, with and without API header.  bundled-lis-plot: 3 files x (FILM/PRES of the file, each built-in '
+        '100 / 200 / 500 / 1000, with and without API header; adapter-plot: the same cases, formats drawn among those that plot '
+        'one of the curves.  bundled-lis-plot: 3 files x (FILM/PRES of the file, each built-in '
         'format, one run with API header).  Non-trivial: scale case whose wrap count != 0; LAS case with >= 2 curves one of '
-        'which has absent values; bundled case that produced >= 1 SVG.  Distinct = distinct case.')
+        'which has absent values (las-plot and adapter-plot); bundled case that produced >= 1 SVG.  Distinct = distinct case.')
 ASSUMPTIONS = [
     'scale-maths is asserted only where every intermediate quantity of the documented formulae - logical span r-l (log: r/l '
     'and v/l), scale factor width/span, offset, normalised position and unwrapped position - is itself a finite, normal '
@@ -77,7 +83,12 @@ ASSUMPTIONS = [
     'of the format must give a plot with > 0 curves',
     'SVG: polyline points are printed with one decimal, the margins with three: tolerance 0.051 user units',
     'absent values of the bundled LIS files are taken from LogPass.genOutpPoints (the reader is trusted here, it is C06\'s subject)',
-    'the LAS plotting route is dead on this tree (finding F19a): the SVG checks of las-plot only run once it is repaired',
+    'the LAS plotting route is dead on this tree (finding F19a): the SVG checks of las-plot only run once it is repaired; until '
+    'then adapter-plot gives the generated curve shapes real coverage: its frame holder is harness code that implements the '
+    'duck-typed interface the Plot docstrings name, keyed by Mnem like the LgFormat outputs',
+    '"no point for absent values" is read geometrically: no polyline vertex at a depth strictly inside an interval in which '
+    'the channel has only absent samples (the neighbouring present samples bound the interval); an output with no present '
+    'sample has no polyline.  The planned count oracle (points <= present samples + interpolation points) is not implemented',
 ]
 LEVEL_TEXT = ('generated scale cases against exact arithmetic; generated LAS files and the bundled LIS files plotted and the '
               'SVG output measured; counts and samples in the evidence file')
@@ -87,8 +98,9 @@ REQUIRED_CLASSES = {
     'scale:value-on-edge': 1, 'scale:|value|>=1e30': 1, 'scale:asserted': 1, 'scale:log-nonpositive': 1,
     'scale:backup-NONE': 1, 'scale:backup-ALL': 1, 'scale:backup-ONCE': 1, 'scale:backup-TWICE': 1,
     'scale:backup-LEFT': 1, 'scale:backup-RIGHT': 1, 'scale:offscale-asserted': 1,
-    'las:format-matches-a-curve': 1, 'las:has-absent-gap': 1, 'las:all-absent-curve': 1, 'las:huge-values': 1,
-    'las:nonpositive-on-log-curve': 1,
+    'las:format-matches-a-curve': 1,
+    'adapter:svg-checked': 1, 'adapter:has-absent-gap': 1, 'adapter:all-absent-curve': 1, 'adapter:huge-values': 1,
+    'adapter:tiny-values': 1, 'adapter:spikes': 1, 'adapter:nonpositive-on-log-curve': 1, 'adapter:absent-output-checked': 1,
     'lisplot:svg-checked': 1, 'lisplot:xml-format': 1, 'lisplot:internal-film-pres': 1, 'lisplot:polyline-points>=1000': 1,
     'svgcheck:depth-mapping-confirmed(>=50%-of-vertices-at-sample-depths)': 1,
     'svgcheck:self-check-passed': 1,
